@@ -58,3 +58,60 @@ Fixpoint conn_feed (now : Z) (s : server) (c : Z) (buf : bytes) (chunks : list b
 (** what the client decodes from the output stream *)
 Definition decode_out (out : bytes) : list frame * status :=
   match drain_buf no_double out with (fs, st, _) => (fs, st) end.
+
+(** ---- the same with the pub/sub commands (process_frame_x) ----
+    The connection loop holds the replies of a batch back until every frame has been processed
+    ([held]), while the pub/sub handlers write straight into the buffer ([written]): pushed
+    messages that a PUBLISH delivers to the issuing connection itself, and the confirmations of
+    (P)(UN)SUBSCRIBE.  Since 86d9004 the replies owed so far are queued before such a handler
+    runs - when the loop recognises the command, which it does on the UN-trimmed upper-cased
+    name, unlike process_frame. *)
+Definition loop_command (f : frame) : bytes :=
+  match f with FArray (FBulk nm :: _) => upper nm | _ => [] end.
+Definition is_sub_cmd (n : bytes) : bool :=
+  beq n (bs "SUBSCRIBE") || beq n (bs "UNSUBSCRIBE") || beq n (bs "PSUBSCRIBE") || beq n (bs "PUNSUBSCRIBE").
+Definition drop_noresp (l : list frame) : list frame :=
+  filter (fun f => match f with FNoResponse => false | _ => true end) l.
+
+Fixpoint serve_frames_x (now : Z) (s : server) (c : Z) (fs : list frame)
+         (written held : list frame) (pushes : list (Z * frame)) (quit : bool)
+  : list frame * list frame * list (Z * frame) * server * bool :=
+  match fs with
+  | [] => (written, held, pushes, s, quit)
+  | f :: r =>
+      let flush := is_sub_cmd (loop_command f) && negb (match held with [] => true | _ => false end) in
+      let written1 := if flush then written ++ drop_noresp held else written in
+      let held1 := if flush then [] else held in
+      match process_frame_x now s c f None with
+      | (direct, resp, s') =>
+          serve_frames_x now s' c r
+            (written1 ++ map snd (filter (fun e => fst e =? c) direct)) (held1 ++ [resp])
+            (pushes ++ other_frames c direct) (quit || is_quit f)
+      end
+  end.
+
+(** one read: (output bytes of c, parser buffer, frames pushed to other connections, server,
+    connection closed) *)
+Definition conn_read_x (now : Z) (s : server) (c : Z) (buf chunk : bytes)
+  : bytes * bytes * list (Z * frame) * server * bool :=
+  match drain_buf no_double (buf ++ chunk) with
+  | (frames, st, buf') =>
+      match serve_frames_x now s c frames [] [] [] false with
+      | (written, held, pushes, s', quit) =>
+          let reps := written ++ held ++ (match st with Failed => [protocol_error_reply] | NeedMore => [] end) in
+          let closing := quit || (match st with Failed => true | NeedMore => false end) in
+          let s2 := if closing then close_conn s' c else s' in
+          (write_replies reps, buf', pushes, s2, closing && negb (has_conn s2 c))
+      end
+  end.
+
+Fixpoint conn_feed_x (now : Z) (s : server) (c : Z) (buf : bytes) (chunks : list bytes) (out : bytes)
+         (pushes : list (Z * frame)) : bytes * bytes * list (Z * frame) * server * bool :=
+  match chunks with
+  | [] => (out, buf, pushes, s, false)
+  | ch :: r =>
+      match conn_read_x now s c buf ch with
+      | (o, buf', ps, s', true) => (out ++ o, buf', pushes ++ ps, s', true)
+      | (o, buf', ps, s', false) => conn_feed_x now s' c buf' r (out ++ o) (pushes ++ ps)
+      end
+  end.
